@@ -1112,6 +1112,10 @@ def process_cases(args: tuple[list[Case], int, str, dict[str, Any]]) -> dict[str
                 problems.append(dict(rep, **{"class": "meta", "sig": meta_signature(ab, b, a, v),
                                              "what": "predicted from the other run's reports under this configuration: " + bad}))
             got = a["cfg"].get(main_idx)
+            # an inline `# mypy: disable-error-code=...` outranks the command line (C17's documented precedence): the rule for
+            # the code sets modelled here is the one for the global flags
+            if re.search(r"^# mypy:.*error[-_]code", case.main, re.M):
+                got = None
             if got is not None and (sorted(vr["codes"]["enabled"]) != sorted(got["enabled"])
                                     or sorted(vr["codes"]["disabled"]) != sorted(got["disabled"])):
                 problems.append(dict(rep, **{"class": "code-sets",
